@@ -77,12 +77,21 @@ inductive MOp where
   | addA (B : Mat) | subA (B : Mat) | set (B : Mat) | copySub (B : Mat)   -- + - = C
   | resize (r c : Nat) | assign (r c : Nat) (e : Rat)      -- Z A
   | delRow (i : Nat) | delCol (j : Nat)                    -- DR DC
+  | retRow (i : Nat) | retCol (j : Nat) | subM (i j : Nat) -- RR RC SM
+  | orthogonal | invertible | antisym | diag               -- O I AY DG
 
 /-- `Matrix::Resize(row, col)`: `components.resize(row)` then every row `.resize(col)` -/
 def mresize (A : Mat) (r c : Nat) : Mat :=
   ⟨r, c, (A.data.take r ++ List.replicate (r - A.data.length) []).map (fun row => vresize row c)⟩
 
 def flat (A : Mat) : List Rat := A.data.foldr (· ++ ·) []
+
+/-- `Matrix::Orthogonal`: `Invertible() && Transpose() == Inverse()` -/
+def orthogonal (A : Mat) : Except Err Bool :=
+  if !C05.invertible A then .ok false
+  else match C05.inverse A with
+    | .ok X => .ok (meq (transpose A) X)
+    | .error e => .error e
 
 def mStep (A : Mat) : MOp → Except Err (Mat × List Rat)
   | .norm => .ok (A, [normSq A])                           -- reported as the square
@@ -104,6 +113,16 @@ def mStep (A : Mat) : MOp → Except Err (Mat × List Rat)
   | .assign r c e => .ok (Mat.const r c e, [])
   | .delRow i => match deleteRow A i with | .ok C => .ok (C, []) | .error e => .error e
   | .delCol j => match deleteCol A j with | .ok C => .ok (C, []) | .error e => .error e
+  | .retRow i => match returnRow A i with | .ok v => .ok (A, v) | .error e => .error e
+  | .retCol j => match returnCol A j with | .ok v => .ok (A, v) | .error e => .error e
+  | .subM i j =>
+    match subMatrix A (i : Int) (j : Int) with
+    | .ok B => .ok (A, [(B.rows : Rat), (B.cols : Rat)] ++ flat B)
+    | .error e => .error e
+  | .orthogonal => match orthogonal A with | .ok b => .ok (A, [if b then 1 else 0]) | .error e => .error e
+  | .invertible => .ok (A, [if C05.invertible A then 1 else 0])
+  | .antisym => .ok (A, [if antisymmetric A then 1 else 0])
+  | .diag => .ok (A, [if diagonal A then 1 else 0])
 
 def mRun (A : Mat) (ops : List MOp) : Except Err (List Rat) :=
   match runS mStep A ops with | .ok (_, out) => .ok out | .error e => .error e
